@@ -12,6 +12,46 @@ int gate_cmd(const cmd *c) __attribute__((weak));
 int disp_cmd(const cmd *c) __attribute__((weak));
 int self_cmd(const cmd *c) __attribute__((weak));
 
+#include <pthread.h>
+void disp_rearm_all(void) __attribute__((weak));
+static pthread_barrier_t bar;
+static int
+dispatch(const cmd *c)
+{
+        return (hash_cmd && hash_cmd(c)) || (aes_cmd && aes_cmd(c)) || (mh_cmd && mh_cmd(c)) || (rh_cmd && rh_cmd(c)) ||
+               (gate_cmd && gate_cmd(c)) || (disp_cmd && disp_cmd(c)) || (self_cmd && self_cmd(c));
+}
+struct parg {
+        char cmds[512], trace[512];
+};
+static void *
+par_worker(void *a)
+{
+        struct parg *p = a;
+        FILE *f = fopen(p->cmds, "r");
+        ev_fp_thread = fopen(p->trace, "w");
+        if (!f || !ev_fp_thread)
+                die("par: cannot open %s / %s", p->cmds, p->trace);
+        vc_thread_init();
+        pthread_barrier_wait(&bar); /* simultaneous first calls */
+        cmd c;
+        while (cmd_read(f, &c)) {
+                if (!strcmp(c.t[0], "mark")) {
+                        ev_begin("Mark");
+                        ev_str("id", c.n > 1 ? c.t[1] : "");
+                        ev_end();
+                        continue;
+                }
+                if (!strcmp(c.t[0], "hidden") || !strcmp(c.t[0], "dump"))
+                        continue;
+                if (!dispatch(&c))
+                        die("unknown command %s", c.t[0]);
+        }
+        fclose(ev_fp_thread);
+        fclose(f);
+        return NULL;
+}
+
 int
 main(int argc, char **argv)
 {
@@ -38,9 +78,27 @@ main(int argc, char **argv)
                         ev_end();
                         continue;
                 }
-                if ((hash_cmd && hash_cmd(&c)) || (aes_cmd && aes_cmd(&c)) || (mh_cmd && mh_cmd(&c)) ||
-                    (rh_cmd && rh_cmd(&c)) || (gate_cmd && gate_cmd(&c)) || (disp_cmd && disp_cmd(&c)) ||
-                    (self_cmd && self_cmd(&c)))
+                if (!strcmp(c.t[0], "par")) { /* par <cmds1> <trace1> <cmds2> <trace2> ... : one thread per pair */
+                        int n = (c.n - 1) / 2;
+                        pthread_t th[64];
+                        static struct parg pa[64];
+                        if (n > 64)
+                                die("par: too many threads");
+                        if (disp_rearm_all)
+                                disp_rearm_all(); /* every binding back to its resolver: first calls race */
+                        vc_parallel = 1;
+                        pthread_barrier_init(&bar, NULL, (unsigned) n);
+                        for (int i = 0; i < n; i++) {
+                                snprintf(pa[i].cmds, sizeof pa[i].cmds, "%s", c.t[1 + 2 * i]);
+                                snprintf(pa[i].trace, sizeof pa[i].trace, "%s", c.t[2 + 2 * i]);
+                                pthread_create(&th[i], NULL, par_worker, &pa[i]);
+                        }
+                        for (int i = 0; i < n; i++)
+                                pthread_join(th[i], NULL);
+                        vc_parallel = 0;
+                        continue;
+                }
+                if (dispatch(&c))
                         continue;
                 die("unknown command %s", c.t[0]);
         }
